@@ -152,6 +152,27 @@ def chain_case(draw) -> dict[str, Any]:
 
 
 @st.composite
+def detour_case(draw) -> dict[str, Any]:
+    """A session that is reachable on two ways of different length, with a tail behind it that is inside the depth limit only via
+    the short way: the order in which the scan enumerates the two ways must not matter. Session numbers are drawn freely, so the
+    long way starts with the higher as well as with the lower identifier."""
+    pool = [2, 3, 4, 5, 0x10, 0x40, 0x41, 0x42, 0x60, 0x7D, 0x7E, 0x7F]
+    s_len = draw(st.integers(1, 2))          # edges on the short way 1 -> .. -> Y
+    l_len = s_len + draw(st.integers(1, 2))  # edges on the long way
+    t_len = draw(st.integers(1, 3))          # edges of the tail behind Y
+    n = (s_len - 1) + (l_len - 1) + 1 + t_len
+    ids = draw(st.lists(st.sampled_from(pool), unique=True, min_size=n, max_size=n))
+    short, long_, y, tail = ids[: s_len - 1], ids[s_len - 1: s_len - 1 + l_len - 1], ids[s_len + l_len - 2], ids[s_len + l_len - 1:]
+    edges: dict[int, set[int]] = {a: {1} for a in [1] + ids}
+    for path in ([1] + short + [y], [1] + long_ + [y], [y] + tail):
+        for a, b in zip(path, path[1:]):
+            edges[a].add(b)
+    depth = s_len + t_len + draw(st.sampled_from([0, 0, 0, 1]))
+    return {"kind": "graph", "graph": {str(a): sorted(b) for a, b in edges.items()}, "silent": [], "nrc_mode": draw(st.sampled_from(["plain", "inactive"])),
+            "depth": min(depth, 5), "skip": [], "thorough": draw(st.sampled_from([False, False, False, True]))}
+
+
+@st.composite
 def random_server_case(draw) -> dict[str, Any]:
     return {"kind": "random", "seed": draw(st.integers(0, 10000)),
             "params": draw(st.sampled_from([{}, {"p_session": 0.2}, {"p_session": 0.5, "optional_sessions": [2, 3, 4, 0x40, 0x41]},
@@ -253,7 +274,7 @@ def run_shard(spec: dict[str, Any], seed: int) -> Collector:
         for b, m in res:
             col.violation(b, case, m)
 
-    strat = {"graph": st.one_of(graph_case(), graph_case(), chain_case()), "random": random_server_case()}[spec["what"]]
+    strat = {"graph": st.one_of(graph_case(), graph_case(), chain_case(), detour_case()), "random": random_server_case()}[spec["what"]]
     run_given(strat, body, spec["n"], seed)
     return col
 
@@ -264,4 +285,4 @@ def replay(witness: Any) -> list[tuple[str, str]]:
 
 def shrink(bucket: str, witness: Any, seed: int) -> Any:
     w = unjson(witness)
-    return shrink_bucket(st.one_of(graph_case(), chain_case()) if w["kind"] == "graph" else random_server_case(), lambda c: {b for b, _ in check(c)}, bucket, seed, max_examples=300)
+    return shrink_bucket(st.one_of(graph_case(), chain_case(), detour_case()) if w["kind"] == "graph" else random_server_case(), lambda c: {b for b, _ in check(c)}, bucket, seed, max_examples=300)
